@@ -159,6 +159,12 @@ func init() {
 		Params: map[string]int{"secrets": 2, "versions": 2}, ThoroughParams: map[string]int{"secrets": 3, "versions": 3},
 		ExpectReach: []string{"end-v1", "end-other-version"}, NoNative: envNote,
 		Desc: "a document built from the documented schema-v1 layout and contexts (pinned in the harness) opens with identical contents; other schema versions rejected; open never writes"})
+	for _, n := range []string{"ReopenedPut", "ReopenedActivate", "ReopenedDeleteVersion", "ReopenedDelete"} {
+		c03.Harnesses = append(c03.Harnesses, &HarnessSpec{Name: "verifHarnessC05" + n, Pkg: "db", Stubs: dbEnvStubs,
+			Params: map[string]int{"secrets": 2, "versions": 2}, ThoroughParams: map[string]int{"secrets": 3, "versions": 3},
+			ExpectReach: []string{"end"}, NoNative: envNote,
+			Desc: "restart chain: a mutation acknowledged by a database that was itself opened from a file is recovered by the next open (" + n + ")"})
+	}
 	propRegistry = append(propRegistry, c03)
 
 	c04 := &Property{ID: "C04", Pkgs: []string{"db"}, Bounds: map[string]string{"fault positions": "every FS call of atomicfile.WriteFile (stat, createtemp, write, chmod, sync, close, rename, remove): error and kill-before", "secrets_per_state": "2 / 3"}}
